@@ -169,8 +169,52 @@ namespace xv
         return s;
     }
 
+    // ---- C17 extras ----
+    // clip(x, lo, hi) with lo <= hi (precondition asserted by the scalar overload); NaN operands are outside C17
+    XV_REF(ref_clip, if (x.b > x.c) { r.skip = true; return; } r.v = x.b > x.a ? x.b : (x.c < x.a ? x.c : x.a); r.zsign = true;)
+    // pow with an integer exponent: square-and-multiply from the least significant exponent bit (each product
+    // rounded once), reciprocal for negative exponents -- the algorithm both forms are documented to share
+    XV_REF(ref_ipow, T a = x.a; long b = x.p; bool recip = b < 0; T res = (T)1; for (;;) { if (b & 1) res = opaque(res * a); b /= 2; if (b == 0) break; a = opaque(a * a); } r.v = recip ? (T)1 / res : res;)
+    template <class T>
+    struct san_clip
+    {
+        static inline void f(Ops<T>& x)
+        {
+            if (x.b > x.c)
+            {
+                T t = x.b;
+                x.b = x.c;
+                x.c = t;
+            }
+            else if (!(x.b <= x.c)) // unordered bounds (NaN): outside the contract, replaced
+                x.b = x.c = (T)0;
+        }
+    };
+    inline void ref_bits_copy(const RefArgs& A)
+    {
+        size_t sz = (size_t)xv_type_size[A.sig->in_t[0]];
+        memcpy(A.e1[0], A.in[0], A.n * sz);
+        memcpy(A.e2[0], A.in[0], A.n * sz);
+        memset(A.flags, F_EXACT, A.n);
+    }
+
     inline void register_red_specs()
     {
+        {
+            OpSpec& c = def_all<ref_clip>("clip", "ter");
+            set_int_sans<san_clip>(c);
+            set_fp_sans<san_clip>(c);
+            OpSpec& p = specs()["ipow"];
+            p.name = "ipow";
+            p.space = "un";
+            p.param_kind = 3;
+            set_fp_refs<ref_ipow>(p);
+            OpSpec& b = specs()["bitwise_cast.scalar"];
+            b.name = "bitwise_cast.scalar";
+            b.space = "conv";
+            for (int t = 0; t < XV_NTYPES; ++t)
+                b.ref[t] = &ref_bits_copy;
+        }
         def_reduce<0>("reduce_add");
         def_reduce<1>("reduce_max");
         def_reduce<2>("reduce_min");
